@@ -36,12 +36,16 @@ var twinOf = map[string]string{
 	"mailto:bob@nyaruka.com": "mailto:eve@nyaruka.com",
 	"telegram:12345":         "telegram:54321",
 	"facebook:12345":         "facebook:54321",
+	"tel:+250788222333":      "tel:+250788222399",
+	"tel:+250788444555":      "tel:+250788444599",
+	"twitter:ann":            "twitter:zoe",
 }
 
 func twin(raw json.RawMessage) json.RawMessage {
 	s := string(raw)
 	for a, b := range twinOf {
-		s = strings.ReplaceAll(s, `"`+a+`"`, `"`+b+`"`)
+		// opening quote + URN, so that a ?channel= affinity after the path is preserved
+		s = strings.ReplaceAll(s, `"`+a, `"`+b)
 	}
 	return json.RawMessage(s)
 }
